@@ -112,7 +112,7 @@ def evaluate(spec):
         for k, u in enumerate(b.units):
             if u.sym is None:
                 continue
-            access = "data" if u.kind == "data" else ("cf" if u.kind in ("jmp", "jcc", "call") else "code")
+            access = "data" if u.kind == "data" else ("cf" if u.kind in ("jmp", "jcc", "call", "icall", "ijmp") else "code")
             tname = None
             if b.code:
                 tname = next((t.name for t in I.TABLES[isa] if t.kind == u.kind and len(t.bytes) == len(u.data)
@@ -126,6 +126,26 @@ def evaluate(spec):
             if attrs:
                 bi.symbolic_expressions[off] = gtirb.SymAddrConst(e.offset, e.symbol, attrs)
             unit_at[(id(bi), off)] = (u, access, tname)
+    # an indirect call / jump through a memory operand that names a code symbol or an extern is resolved in the
+    # input CFG (as a disassembler would): its edge leads to the symbol's referent and is labelled indirect
+    resolved = {}
+    ET0 = gtirb.Edge.Type
+    for b in case.blocks:
+        if not (b.code and b.units[-1].kind in ("icall", "ijmp") and b.units[-1].sym is not None):
+            continue
+        nm = b.units[-1].sym
+        if nm in case.externs:
+            tgt = built.proxies[nm]
+        elif case.label_block[nm][1] == "start" and case.blocks[case.label_block[nm][0]].code:
+            tgt = built.blocks[case.label_block[nm][0]]
+        else:
+            continue
+        src = built.blocks[b.gidx]
+        for e in list(src.outgoing_edges):
+            if e.label and e.label.type in (ET0.Branch, ET0.Call) and isinstance(e.target, gtirb.ProxyBlock) and not e.label.direct:
+                built.ir.cfg.discard(e)
+                built.ir.cfg.add(gtirb.Edge(src, tgt, e.label))
+                resolved[b.gidx] = nm
     # CFI + symbolForwarding mentions
     cfi_syms = [pool[i % len(pool)] for i in spec.get("cfi_syms", [])]
     code = [b for b in case.blocks if b.code]
@@ -207,8 +227,11 @@ def evaluate(spec):
         for e in insns:
             u = e.unit
             if u.sym in mapping:
-                kind = "data" if u.kind == "data" else ("cf" if u.kind in ("jmp", "jcc", "call") else "code")
+                kind = "data" if u.kind == "data" else ("cf" if u.kind in ("jmp", "jcc", "call", "icall", "ijmp") else "code")
                 uses.setdefault(u.sym, set()).add(kind)
+                if u.kind in ("icall", "ijmp") and not (u.origin[0] == "orig" and u.origin[1] in resolved):
+                    # unresolved indirect transfer: no edge leads to A's referent, nothing to refuse
+                    continue
                 if kind == "cf" and mapping[u.sym] in case.label_block and not case.blocks[case.label_block[mapping[u.sym]][0]].code:
                     cf_into_data = True
                     # code spliced into the target data block may turn the
@@ -255,7 +278,7 @@ def evaluate(spec):
             u = e.unit
             if u.sym is None:
                 continue
-            access = "data" if u.kind == "data" else ("cf" if u.kind in ("jmp", "jcc", "call") else "code")
+            access = "data" if u.kind == "data" else ("cf" if u.kind in ("jmp", "jcc", "call", "icall", "ijmp") else "code")
             tname = None
             if isa == "arm64" and u.kind == "ord":
                 tname = "load" if u.data[:4] == I.table(isa)["load"].bytes else "lea"
@@ -312,7 +335,7 @@ def evaluate(spec):
     expected_edges = set()
     changed_sources = {}
     for b in case.blocks:
-        if b.code and b.units[-1].kind in ("jmp", "jcc", "call") and b.units[-1].sym in mapping:
+        if b.code and (b.units[-1].kind in ("jmp", "jcc", "call") or b.gidx in resolved) and b.units[-1].sym in mapping:
             changed_sources[id(built.blocks[b.gidx])] = (b.units[-1].sym, mapping[b.units[-1].sym])
     retsite_related = False
     ET = gtirb.Edge.Type
